@@ -1152,3 +1152,52 @@ func stripNegVariants(t *Term, assumed bool) *Term {
 	}
 	return t
 }
+
+// alphaKey: the rendering of a formula with its bound variables renamed canonically (in order of binding), so that two
+// hypotheses that differ only in the names of their bound variables - a callee's postcondition and an anchored
+// assertion restating it, the same invariant assumed at two cut points - are recognised as duplicates.
+func alphaKey(t *Term) string {
+	n := 0
+	return alphaNorm(t, &n).String()
+}
+
+func alphaNorm(t *Term, ctr *int) *Term {
+	if len(t.Args) == 0 {
+		return t
+	}
+	if t.Op == "forall" || t.Op == "exists" {
+		m := map[string]*Term{}
+		nb := make([]*Term, len(t.Bound))
+		for i, b := range t.Bound {
+			nb[i] = Sym(fmt.Sprintf("$b%d", *ctr), b.S)
+			*ctr++
+			m[b.Op] = nb[i]
+		}
+		body := alphaNorm(t.Args[0].Subst(m), ctr)
+		var pats []*Term
+		for _, p := range t.Pat {
+			pats = append(pats, p.Subst(m))
+		}
+		var alts [][]*Term
+		for _, alt := range t.Alts {
+			var na []*Term
+			for _, p := range alt {
+				na = append(na, p.Subst(m))
+			}
+			alts = append(alts, na)
+		}
+		return &Term{Op: t.Op, S: t.S, Bound: nb, Args: []*Term{body}, Pat: pats, Alts: alts}
+	}
+	changed := false
+	args := make([]*Term, len(t.Args))
+	for i, a := range t.Args {
+		args[i] = alphaNorm(a, ctr)
+		if args[i] != a {
+			changed = true
+		}
+	}
+	if !changed {
+		return t
+	}
+	return &Term{Op: t.Op, S: t.S, Args: args, Bound: t.Bound, Pat: t.Pat, Alts: t.Alts, Num: t.Num}
+}
